@@ -120,7 +120,7 @@ pub struct Cfg {
 }
 const ADMIN: SRef = SRef::Ext(99);
 const NAMES: [&str; 5] = ["r", "renamed-a", "renamed-b", "renamed-c", "multisig"];
-const N_POL: u8 = 3;
+const N_POL: u8 = 6;
 
 #[derive(Clone, Debug)]
 struct Rule {
@@ -318,7 +318,7 @@ impl Check for SmartAccount {
         true
     }
     fn probes(&self, _prop: &str) -> std::vec::Vec<&'static str> {
-        vec!["probe.accepted", "probe.rejected"]
+        vec!["probe.accepted", "probe.rejected", "probe.max_context_rules_reached", "probe.max_signers_reached", "probe.max_policies_reached"]
     }
     fn property_of(&self, check: &str) -> std::vec::Vec<&'static str> {
         if check.starts_with("rules.") {
@@ -341,6 +341,38 @@ impl Check for SmartAccount {
         };
         let mut steps = vec![];
         let mut previous_def: Option<(CType, std::vec::Vec<SRef>, std::vec::Vec<u8>)> = None;
+        // limit openings (an eighth of the runs): exactly MAX_SIGNERS / MAX_POLICIES / MAX_CONTEXT_RULES, then one more
+        if rng.chance(12) {
+            let ext = |k: u8| SRef::Ext(20 + k);
+            let opening: std::vec::Vec<Step> = match rng.below(3) {
+                0 => vec![
+                    Step::AddRule { ctype: CType::Call(0), until: Until::None, signers: (0..15).map(ext).collect(), policies: vec![] },
+                    Step::AddSigner { id: 1, s: ext(15) },
+                    Step::AddRule { ctype: CType::Call(1), until: Until::None, signers: (0..16).map(ext).collect(), policies: vec![] },
+                    Step::RemoveSigner { id: 1, s: ext(3) },
+                    Step::AddSigner { id: 1, s: ext(15) },
+                ],
+                1 => vec![
+                    Step::AddRule { ctype: CType::Call(0), until: Until::None, signers: vec![ext(0)], policies: vec![0, 1, 2, 3, 4] },
+                    Step::AddPolicy { id: 1, p: 5 },
+                    Step::AddRule { ctype: CType::Call(1), until: Until::None, signers: vec![ext(0)], policies: vec![0, 1, 2, 3, 4, 5] },
+                    Step::RemovePolicy { id: 1, p: 2 },
+                    Step::AddPolicy { id: 1, p: 5 },
+                ],
+                _ => {
+                    let mut v: std::vec::Vec<Step> = (0..14u8).map(|k| Step::AddRule { ctype: CType::Call(k % 3), until: Until::None, signers: vec![ext(k)], policies: vec![] }).collect();
+                    v.push(Step::AddRule { ctype: CType::Default, until: Until::None, signers: vec![ext(14)], policies: vec![] });
+                    v.push(Step::RemoveRule { id: 7 });
+                    v.push(Step::AddRule { ctype: CType::Default, until: Until::None, signers: vec![ext(15)], policies: vec![] });
+                    v.push(Step::AddRule { ctype: CType::Default, until: Until::None, signers: vec![ext(16)], policies: vec![] });
+                    v
+                }
+            };
+            for st in opening {
+                m.apply(&st);
+                steps.push(st);
+            }
+        }
         for _ in 0..nsteps {
             // "re-add after removal / edit": registries must forget the old definition completely
             if let Some((ct, sg, pl)) = previous_def.take() {
@@ -632,6 +664,9 @@ impl Check for SmartAccount {
                     return Err(violation("rules.getters_eq_model", "get_context_rules", i, format!("type {t:?}: ids {ids:?}, model {want:?} after {s:?}")));
                 }
             }
+            if m.rules.len() == 15 { st.hit("probe.max_context_rules_reached"); }
+            if m.rules.iter().any(|r| r.signers.len() == 15) { st.hit("probe.max_signers_reached"); }
+            if m.rules.iter().any(|r| r.policies.len() == 5) { st.hit("probe.max_policies_reached"); }
             if ac.try_get_context_rule(&m.next_id).is_ok() {
                 return Err(violation("rules.ids_never_reused", "next_id", i, format!("rule id {} exists before being issued", m.next_id)));
             }
